@@ -118,12 +118,12 @@ class Model(HoloPyObject):
         for key in ['optics', 'model']:
             kwargs.update(read_map(maps[key], parameters))
         model = cls(**kwargs)
-        if model._parameters == parameters:
-            model._parameter_names = fields['_parameter_names']
-        else:
-            msg = ("Detected inconsistencies when reloading Model. "
-                   "It may differ from previously saved object")
-            warnings.warn(msg, UserWarning)
+        # The saved maps, parameters and names are the complete record of
+        # the model's parameterization, including ties made with add_tie
+        # (which the constructor cannot recreate), so restore them as saved.
+        model._maps = maps
+        model._parameters = parameters
+        model._parameter_names = fields['_parameter_names']
         return model
 
     @property
